@@ -64,12 +64,12 @@ func init() {
 			n := 0
 			for _, as := range a.appendsTo(a.calls) {
 				n++
-				r.Check(fi.within(as, a.loop.Body) && as.Pos() > g.End(), "step-after-guard#"+itoa(n), as.Pos(), "step is planned only for a type not yet indexed")
+				r.Check(fi.within(as, a.loop.Body) && startOf(as) >= endOf(g), "step-after-guard#"+itoa(n), as.Pos(), "step is planned only for a type not yet indexed")
 			}
 			r.Floor("calls = append(calls, …) sites", n, 3)
 			for i, st := range a.indexSets() {
 				if fi.within(st, a.loop.Body) {
-					r.Check(st.Pos() > g.End(), "index-set-after-guard#"+itoa(i), st.Pos(), "index entry written after the visit test")
+					r.Check(startOf(st) >= endOf(g), "index-set-after-guard#"+itoa(i), st.Pos(), "index entry written after the visit test")
 				}
 			}
 		})
@@ -106,18 +106,18 @@ func init() {
 					top = a.loop.Body
 				}
 				found, clean := false, true
-				var setPos token.Pos
+				var setPos int
 				for _, s := range fi.precedingSimple(as, top) {
 					if es, ok := s.(*ast.ExprStmt); ok {
 						if st := fi.isCall(es.X, fnMapSet); st != nil && fi.varOf(recvOf(st)) == a.index && a.isCurrT(st.Args[0]) && isPos(st.Args[1]) {
 							found = true
-							setPos = st.Pos()
+							setPos = startOf(st)
 						}
 					}
 				}
 				if found {
 					for _, o := range a.appendsTo(a.calls) {
-						if o != as && o.Pos() > setPos && o.Pos() < as.Pos() {
+						if o != as && startOf(o) > setPos && startOf(o) < startOf(as) {
 							clean = false
 						}
 					}
@@ -705,12 +705,12 @@ func init() {
 				// before any finalisation
 				early := true
 				for _, o := range a.appendsTo(a.calls) {
-					if o.Pos() < as.Pos() {
+					if startOf(o) < startOf(as) {
 						early = false
 					}
 				}
 				for _, st := range a.indexSets() {
-					if fi.within(st, a.loop.Body) && st.Pos() < as.Pos() && fi.varOf(st.Args[1]) != a.errAbort {
+					if fi.within(st, a.loop.Body) && startOf(st) < startOf(as) && fi.varOf(st.Args[1]) != a.errAbort {
 						early = false
 					}
 				}
